@@ -20,6 +20,9 @@ def gen_case(rng):
     case = {
         "e2e_bulk": {"ndocs": ndocs, "clients": clients, "bulk_size": bulk, "with_meta": rng.random() < 0.3, "multibyte": rng.random() < 0.5,
                      "ingest_percentage": rng.choice([None, None, None, 50, 33.3]),
+                     # batch-size: the reader hands out several bulks per read; throttled: the executor sleeps between asking the (shared)
+                     # parameter source for a bulk and sending it, so co-located clients ask for their bulks in between
+                     "batch_factor": rng.choice([None, None, 2, 5]), "throttle_per_client": rng.choice([None, None, 2, 20]),
                      # a second bulk task on another corpus in the same parallel element: its clients have global indices that differ from
                      # their index in the task (driver.schedule_for partitions by the index in the task)
                      "second": ({"ndocs": rng.choice([5, 120, 700]), "clients": rng.choice([1, 2, 3])} if rng.random() < 0.4 else None)},
@@ -61,8 +64,13 @@ def write_track(case, directory):
         op = {"name": "bulk" + tag, "operation-type": "bulk", "bulk-size": spec["bulk_size"], "corpora": "corpus" + tag}
         if spec["ingest_percentage"] is not None:
             op["ingest-percentage"] = spec["ingest_percentage"]
+        if spec.get("batch_factor"):
+            op["batch-size"] = spec["bulk_size"] * spec["batch_factor"]
         ops.append(op)
-        tasks.append({"operation": "bulk" + tag, "clients": clients})
+        task = {"operation": "bulk" + tag, "clients": clients}
+        if spec.get("throttle_per_client"):
+            task["target-throughput"] = spec["throttle_per_client"] * clients
+        tasks.append(task)
     schedule = [tasks[0]] if len(tasks) == 1 else [{"parallel": {"tasks": tasks}}]
     trk = {"version": 2, "description": "verif bulk track", "indices": indices, "corpora": corpora, "operations": ops,
            "challenges": [{"name": "c", "default": True, "schedule": schedule}]}
@@ -140,6 +148,8 @@ def race_case(ctx, rng, explicit=None):
             feats.add("e2e:multi-worker")
         if spec.get("second"):
             feats.add("e2e:two-bulk-tasks-in-parallel")
+        if spec.get("batch_factor") and spec.get("throttle_per_client") and spec["clients"] > len(tr.workers) and spec["ndocs"] > 2 * spec["bulk_size"]:
+            feats.add("e2e:throttled-batches-shared-source")
     ctx.case(["e2e", case], True, feats)
     ctx.sample({"class": "e2e", "spec": spec, "observed": {"workers": tr.workers, "bulk_requests": sum(1 for r in tr.sim.log if r["path"].endswith("_bulk")), "exit_status": tr.exit_status}}, tag="e2e-bulk")
     for clause, msg, detail in problems[:3]:
